@@ -8,7 +8,8 @@
  *     <size> <nthieves> | <owner ops> | <thief 1 ops> | ... | <schedule>
  *   owner ops :  P<tag> push   O pop   U<tag> put
  *   thief ops :  T take   S<tag> trypass   K peek
- *   schedule  :  participant indices (0 = owner, i = thief i); one entry = one step of that
+ *   schedule  :  participant indices (0 = owner, i = thief i), or u<p>.<n> = "step participant p
+ *                until it has completed n operations"; one index entry = one step of that
  *                participant (enter its next operation up to the first POINT / run to the next
  *                POINT / return).  After the explicit schedule the remaining steps are made
  *                round-robin until every participant has finished.
@@ -56,6 +57,7 @@ typedef struct part {
   long val;
   long result;
   volatile int finished;
+  volatile int ops_done;   /* operations whose return has been consumed */
   pthread_t th;
 } part_t;
 
@@ -110,6 +112,7 @@ static void * body(void * a) {
     }
     p->result = r;
     park("h.ret", 0);
+    p->ops_done = i + 1;
   }
   p->finished = 1;
   sem_post(&back);
@@ -150,7 +153,7 @@ static void snapshot(int who, int first) {
   flush_out();
 }
 
-static int sched[MAXSCHED], nsched;
+static int sched[MAXSCHED], sched_until[MAXSCHED], nsched;   /* sched_until[k] >= 0: token u<p>.<n> */
 
 static void do_step(int i, int * first) {
   if (i >= 0 && i < NP && !P[i].finished) {
@@ -169,12 +172,20 @@ static void run_case(void) {
   g_myth_verif_cb = cb;
   for (i = 0; i < NP; i++) {
     sem_init(&P[i].go, 0, 0);
-    P[i].idx = i; P[i].finished = 0; P[i].at = "h.call";
+    P[i].idx = i; P[i].finished = 0; P[i].ops_done = 0; P[i].at = "h.call";
     pthread_create(&P[i].th, 0, body, &P[i]);
   }
   for (i = 0; i < NP; i++) sem_wait(&back);
   cur_step = 0;
-  for (k = 0; k < nsched; k++) { do_step(sched[k], &first); steps++; }
+  for (k = 0; k < nsched; k++) {
+    if (sched_until[k] < 0) { do_step(sched[k], &first); steps++; }
+    else {
+      int p = sched[k], guard = 0;
+      while (p >= 0 && p < NP && !P[p].finished && P[p].ops_done < sched_until[k] && guard++ < 400) {
+        do_step(p, &first); steps++;
+      }
+    }
+  }
   for (;;) {
     int all = 1;
     for (i = 0; i < NP; i++) if (!P[i].finished) all = 0;
@@ -209,7 +220,12 @@ static int parse_case(char * line) {
     } else {
       for (tok = strtok_r(fld, " \n", &s2); tok; tok = strtok_r(0, " \n", &s2)) {
         if (nsched >= MAXSCHED) return -4;
-        sched[nsched++] = atoi(tok);
+        if (tok[0] == 'u') {
+          char * dot = strchr(tok, '.');
+          if (!dot) return -6;
+          sched[nsched] = atoi(tok + 1); sched_until[nsched] = atoi(dot + 1);
+        } else { sched[nsched] = atoi(tok); sched_until[nsched] = -1; }
+        nsched++;
       }
     }
   }
